@@ -73,8 +73,6 @@ type c46Replay struct {
 	Conc   bool  `json:"concurrent"`
 }
 
-var c46BlobSizes = []int{0, 1, 2, 4096, 1 << 20}
-
 func c46Layout(rng *kit.RNG, gi int) []int {
 	var sizes []int
 	switch gi % 8 {
@@ -91,15 +89,16 @@ func c46Layout(rng *kit.RNG, gi int) []int {
 	if rng.Chance(1, 6) {
 		n = rng.Range(13, 40)
 	}
-	big := 0
+	// at most one 1 MiB blob per file, in a third of the files (each uncached read of it costs a full
+	// decrypt under the race detector)
+	bigAt := -1
+	if n > 0 && rng.Chance(1, 3) {
+		bigAt = rng.Intn(n)
+	}
 	for i := 0; i < n; i++ {
-		s := kit.Pick(rng, c46BlobSizes)
-		if s == 1<<20 {
-			if big >= 2 {
-				s = 4096
-			} else {
-				big++
-			}
+		s := kit.Pick(rng, []int{0, 1, 2, 4096, 4096, 65536})
+		if i == bigAt {
+			s = 1 << 20
 		}
 		sizes = append(sizes, s)
 	}
@@ -111,19 +110,21 @@ func TestVerifC46(t *testing.T) {
 	defer rec.Finish()
 	env := rec.Env
 	groups := env.Pick(32, 1600)
+	// one repository per shard (creating one is very expensive under the race detector)
+	be := kit.NewVBackend(5, true)
+	repo, _ := repository.TestRepositoryWithBackend(t, be, 2, repository.Options{Compression: repository.CompressionOff})
 	for gi := 0; gi < groups; gi++ {
 		if !env.Mine(gi) {
 			continue
 		}
-		c46Group(t, rec, gi)
+		c46Group(t, rec, gi, be, repo)
 	}
 }
 
-func c46Group(t *testing.T, rec *kit.Rec, gi int) {
+func c46Group(t *testing.T, rec *kit.Rec, gi int, be *kit.VBackend, repo *repository.Repository) {
 	rng := rec.RNG("group", gi)
 	ctx := context.Background()
-	be := kit.NewVBackend(uint(rng.Range(1, 6)), true)
-	repo, _ := repository.TestRepositoryWithBackend(t, be, 2, repository.Options{})
+	be.SetYield(0, nil)
 	nFiles := 6
 	files := make([]*c46File, nFiles)
 	emptySaved := true
